@@ -5,6 +5,7 @@ package main
 // the evidence file and set the exit status.
 
 import (
+	"sync"
 	"encoding/json"
 	"flag"
 	"fmt"
@@ -190,7 +191,8 @@ func cmdCheck(args []string) {
 	}
 	{
 		exe, _ := os.Executable()
-		ro.self = []string{exe, "run", "-repo", *repo, "-harness", hdir, "-specs", filepath.Join(hdir, "harnesses.json"), "-tier", *tier, "-cap", fmt.Sprint(ro.cap), "-workers", "2"}
+		ro.self = []string{exe, "run", "-repo", *repo, "-harness", hdir, "-specs", filepath.Join(hdir, "harnesses.json"), "-tier", *tier, "-cap", fmt.Sprint(ro.cap), "-workers", "1"}
+		ro.parallelEntries = true
 	}
 	var reports []HarnessReport
 	violations := 0
@@ -204,6 +206,20 @@ func cmdCheck(args []string) {
 	replayed := 0
 	knownSeen := map[string]bool{}
 
+	// pass 1: run everything
+	type ran struct {
+		s   HarnessSpec
+		rep HarnessReport
+	}
+	var runs []ran
+	reachKey := func(h, name string) string {
+		if i := strings.Index(name, " @"); i >= 0 {
+			name = name[:i]
+		}
+		return h + "|" + name
+	}
+	reachOK := map[string]bool{}
+	var selected []HarnessSpec
 	for _, s := range specs {
 		found := false
 		for _, p := range s.Prop {
@@ -217,9 +233,36 @@ func cmdCheck(args []string) {
 		if *only != "" && !strings.Contains(s.Name, *only) {
 			continue
 		}
-		rep, _ := w.runHarness(s, ro)
+		selected = append(selected, s)
+	}
+	runs = make([]ran, len(selected))
+	{
+		var wg sync.WaitGroup
+		var pmu sync.Mutex
+		for i, s := range selected {
+			wg.Add(1)
+			go func(i int, s HarnessSpec) {
+				defer wg.Done()
+				rep, _ := w.runHarness(s, ro)
+				pmu.Lock()
+				summarize(rep)
+				pmu.Unlock()
+				runs[i] = ran{s, rep}
+			}(i, s)
+		}
+		wg.Wait()
+	}
+	for _, rr := range runs {
+		for _, o := range rr.rep.Obls {
+			if o.Kind == "reach" && o.Status == "witness-ok" {
+				reachOK[reachKey(rr.s.Pkg+":"+rr.s.Name, o.Name)] = true
+			}
+		}
+	}
+	// pass 2: judge
+	for ri, rr := range runs {
+		s, rep := rr.s, rr.rep
 		reports = append(reports, rep)
-		summarize(rep)
 		if rep.Error != "" {
 			inconclusive++
 			lines = append(lines, fmt.Sprintf("INCONCLUSIVE property=%s harness=%s: %s", *prop, s.Name, rep.Error))
@@ -257,8 +300,12 @@ func cmdCheck(args []string) {
 					samples = append(samples, map[string]interface{}{"harness": s.Name, "reaches": o.Name, "input": o.Model})
 				}
 			case "vacuous":
+				// an assertion (or a whole cube) may be unreachable in one cube as long as it is reached in another
+				if reachOK[reachKey(s.Pkg+":"+s.Name, o.Name)] || strings.HasPrefix(o.Name, "assumptions satisfiable") {
+					continue
+				}
 				inconclusive++
-				lines = append(lines, fmt.Sprintf("INCONCLUSIVE property=%s harness=%s: vacuous (unreachable) %s", *prop, s.Name, o.Name))
+				lines = append(lines, fmt.Sprintf("INCONCLUSIVE property=%s harness=%s: vacuous (unreachable in every cube) %s", *prop, s.Name, o.Name))
 			case "solver-disagreement":
 				inconclusive++
 				lines = append(lines, fmt.Sprintf("ENGINE-MISMATCH property=%s harness=%s: solvers disagree on %s %v", *prop, s.Name, o.Name, o.Verdicts))
@@ -278,7 +325,7 @@ func cmdCheck(args []string) {
 				if doc.Values == nil {
 					doc.Values = map[string]interface{}{}
 				}
-				docPath := filepath.Join(replayDir, fmt.Sprintf("%s-%d.json", s.Name, i))
+				docPath := filepath.Join(replayDir, fmt.Sprintf("%s-%s-%d-%d.json", strings.ReplaceAll(s.Pkg, "/", ""), s.Name, ri, i))
 				b, _ := json.MarshalIndent(doc, "", " ")
 				os.WriteFile(docPath, b, 0o644)
 				out, ok := w.replayNative(ovp, doc, docPath, false)
@@ -326,7 +373,7 @@ func cmdCheck(args []string) {
 							}
 							// an input the file does not list: a different violation of the same property
 							doc2 := &ReplayDoc{Property: *prop, Harness: s.Name, Pkg: s.Pkg, Assertion: o.Name, Kind: o.Kind, Values: m}
-							p2 := filepath.Join(replayDir, fmt.Sprintf("%s-%d-new%d.json", s.Name, i, mi))
+							p2 := filepath.Join(replayDir, fmt.Sprintf("%s-%s-%d-%d-new%d.json", strings.ReplaceAll(s.Pkg, "/", ""), s.Name, ri, i, mi))
 							b2, _ := json.MarshalIndent(doc2, "", " ")
 							os.WriteFile(p2, b2, 0o644)
 							if _, ok2 := w.replayNative(ovp, doc2, p2, false); ok2 {
